@@ -17,7 +17,65 @@ def gen_cases_for(seed_, n):
     return cases
 
 
+DEEP_LEAVES = [1, 2.5, "s", True, [1, 2.5], {"a": 1}, [{"a": 1}]]
+
+
+def deep_cases(seed_, n):
+    """documents nested deeper than any annotation CPython can parse (200 brackets): judged on the IR, no module is loaded"""
+    from ..common import rng_for
+    out = []
+    for j in range(n):
+        rng = rng_for(PROP + "-deep", seed_, j)
+        d = rng.choice([60, 150, 199, 200, 201, 230, 300])
+        leaves = rng.sample(DEEP_LEAVES[:4], rng.randint(1, 2)) if rng.random() < 0.6 else [rng.choice(DEEP_LEAVES[4:])]
+        samples = []
+        for leaf in leaves:
+            v = [leaf]
+            for _ in range(d - 1):
+                v = [v]
+            samples.append({"deep": v, "k": 1})
+        out.append({"i": 10 ** 6 + j, "profile": "deep_ir", "depth": d, "models": [["Root", samples]],
+                    "opts": {"framework": "base", "flat": True, "merge": [], "max_literals": 10, "convert_unicode": True,
+                             "registry": ["IntString", "FloatString", "BooleanString"], "dkf": [], "dkr": []}})
+    return out
+
+
+def run_deep(case):
+    """walks the inferred type of the 'deep' field without recursion: every level of the (never empty) sample lists must be a list
+    type whose element type is the next level; Any (Unknown) may not appear, the containers were never empty"""
+    from json_to_models.dynamic_typing import DList, DOptional, DUnion, Unknown
+    from .. import driver
+    try:
+        run = driver.infer([(n, s) for n, s in case["models"]], case["opts"])
+    except RecursionError:
+        return {"status": "outside", "why": "inference raised RecursionError (documents this deep are outside what the library handles)", "witnesses": [],
+                "counters": {"deep_recursion_errors": 1}}
+    t = run.root_ptrs[0].type.type["deep"]
+    wit = []
+    levels = 0
+    for lvl in range(case["depth"]):
+        if isinstance(t, DOptional):
+            wit.append({"property": PROP, "mechanism": "deep-list-optional-without-null", "msg": f"level {lvl} of a {case['depth']}-deep list is Optional, no null was seen"})
+            break
+        if t is Unknown or (isinstance(t, DUnion) and any(x is Unknown for x in t.types)):
+            wit.append({"property": PROP, "mechanism": "any-for-nonempty-container",
+                        "msg": f"level {lvl} of a {case['depth']}-deep list (never empty at any level) is typed Any: {str(t)[:80]}"})
+            break
+        if not isinstance(t, DList):
+            wit.append({"property": PROP, "mechanism": "deep-list-level-not-a-list", "msg": f"level {lvl} of a {case['depth']}-deep list is {str(t)[:80]}"})
+            break
+        t = t.type
+        levels += 1
+    else:
+        if t is Unknown:
+            wit.append({"property": PROP, "mechanism": "any-for-nonempty-container", "msg": f"the innermost element of a {case['depth']}-deep list is typed Any"})
+    return {"status": "violated" if wit else "held", "witnesses": wit, "counters": {"deep_ir_cases": 1, "deep_ir_levels": levels},
+            "nontrivial": True}
+
+
 def run_case(case):
+    if case.get("profile") == "deep_ir":
+        return run_deep(case)
     r = pc.run_case(case, PROP, props=("C01", "C02"))
     c = r.get("counters") or {}
     r["nontrivial"] = r["status"] in ("held", "violated") and (c.get("orc_optionals", 0) + c.get("orc_members", 0)) >= 3 \
@@ -27,11 +85,13 @@ def run_case(case):
 
 def main():
     cases = gen_cases_for(seed(), N[tier()])
+    cases += deep_cases(seed(), 60 if tier() == "quick" else 600)
     v = Verdict(PROP, "exploration",
                 "same workload as C01 rendered mostly as base/dataclasses/attrs (pseudo-types and Literal sets visible); per "
                 "position of the loaded class graph the multiset of sample values routed there must justify every Optional, "
                 "union member, list/dict element type, Literal member and Any; non-trivial = >=3 routed objects and >=3 "
-                "optional/union-member positions judged",
+                "optional/union-member positions judged. Plus 60/600 documents nested 60-300 lists deep (beyond what an annotation can "
+                "spell): the inferred IR type is walked level by level, no Any and no Optional may appear",
                 ["judged only on executions whose C01 acceptance passed (otherwise 'blocked')",
                  "an object is routed to every union member that accepts it (lenient: ambiguity can only add justification)",
                  "pydantic/sqlmodel renderings: only the Optional rule is judged (pseudo-types are rendered as actual types)"])
@@ -42,4 +102,4 @@ def main():
             v.counters["blocked_by_c01_or_load"] += 1
             r = dict(r, status="outside")
         v.add(c, r, sample_view={"samples": c["models"][0][1][:3], "opts": c["opts"]})
-    return v.finish(floor_nontrivial=50, monitors_required=("orc_positions", "orc_optionals", "orc_members", "orc_literals", "orc_anys"))
+    return v.finish(floor_nontrivial=50, monitors_required=("orc_positions", "orc_optionals", "orc_members", "orc_literals", "orc_anys", "deep_ir_levels"))
